@@ -88,6 +88,24 @@ CHECKS['C12'] = dict(
     note='timers and sends are ghost logs (loop_model) attached to the real call sites; construct_outgoing_multicast_answers '
          'is assumed to put exactly the given records in the packet; the event loop is assumed to fire a timer no earlier '
          'than its due time; async_response assumed not to touch queues/timers/clock; TC deferral in _listener not under contract')
+CHECKS['C10'] = dict(
+    text='Every method of the browser QueryScheduler is under contract (10 functions) and verified for all scheduler states, '
+         'pointer records and clock values: structural invariant (one live entry per instance name ignoring case, the map holds '
+         'exactly the live heap entries, minimum in front); reschedule_ptr_first_refresh puts the refresh at created + 75 % of the '
+         'TTL (expiry at 100 %), leaves an entry within `delay` of it alone and otherwise cancels the superseded one; '
+         'cancel_ptr_refresh kills the entry whatever the spelling; schedule_rescue_query adds 10 % of the TTL and stops at the '
+         'expiry time; _process_ready_types (two loop invariants) asks in ONE query exactly the types of the live entries that '
+         'are due, reschedules each, keeps everything else, and re-arms exactly one wake-up at max(earliest scheduled query, now '
+         '+ delay); the start-up chain is 20-120 ms, then 1 s, 4 s, 9 s (QU-eligible only on the first pass) and then `delay` '
+         'into refresh mode. The pass timer invariant `armed` (a pending wake-up no later than max(earliest scheduled query, '
+         'previous pass + delay) and not before previous pass + delay) is preserved by every method incl. scheduling a query '
+         'that is due earlier than the armed pass; `solo` (no second timer chain) is preserved too. Lemmas: each query is at '
+         'most `delay` late; passes are at least `delay` apart.',
+    design_ref='DESIGN.md section 4 C10',
+    note='A1 float as real; A5 ideal timers (a callback runs no earlier than its due time, the clock is constant inside one '
+         'atomic step); heapq is an assumed contract (contracts/heap_model.py); async_send_ready_queries is a ghost log event '
+         '(question building is C13); the schedule is keyed by instance name only (one browsed type per instance); two '
+         'defects found by these obligations were repaired in /repo (known_findings.json)')
 NOT_APPLICABLE = {
     'C07': 'end-to-end liveness over several hosts and lossy delivery: no per-function contract can express it '
            '(DESIGN.md section 6)',
